@@ -9,6 +9,18 @@ NOTE_COMMON = ("Trusted: Lean 4.33 kernel; axioms ⊆ {propext, Classical.choice
                "implementation by differential execution (sampled), not by proof. ")
 
 CLAIMED = {
+ "C02": dict(
+   text=("Lean theorems: for EVERY instant below 24 h (integer or fractional microseconds) the shared hh:mm:ss.mmm formatter and the WebVTT [hh:]mm:ss.mmm "
+         "formatter produce fixed-width fields with mm,ss<60 that an independent reader maps back to the instant truncated to milliseconds (format_denotes, "
+         "vtt_timestamp_denotes, vtt_hours_omitted_iff, fields_in_range: all carries, proved with omega); the SAMI writer's sync planning state machine for one "
+         "language equals 'blank sync at the previous end ms unless the cue starts there, then the cue's sync, nothing after the last' for every cue list "
+         "(sami_sync_plan, induction over the cue list with the last_time state). Executable models of the SRT and MicroDVD writers (whole document), the stamp "
+         "formatters, the MicroDVD frame truncation and the multi-language SAMI sync plan are compared with all seven writers' outputs, whose timing is also "
+         "extracted by independent parsers and compared with the property's denotation."),
+   ref="§3 C02", technique="Lean 4 proof (omega over div/mod carries; induction over the cue list) + differential correspondence on writer output",
+   note=NOTE_COMMON + "timedelta and the :02d/:03d format specs are modelled for the argument ranges that occur (fields_in_range); MicroDVD's int(micro*25.0/10**6) is modelled as an exact rational floor "
+        "(float evaluation trusted below 24 h); SRT same-timespan merging and WebVTT layout splitting are checked by execution, not proved. SAMI: only sorted, non-overlapping cue lists (SAMI cannot carry concurrent cues)."),
+
  "C01": dict(
    text=("Lean theorems for digit strings of ANY width: SRT hh:mm:ss[,fff] (srt_stamp_denotes, srt_stamp_no_fraction), WebVTT [h+:]mm:ss.fff with arbitrary "
          "trailing text (vtt_stamp_hms, vtt_stamp_ms), DFXP clock times plain / with a fraction of any length / with frames (dfxp_clock_*) denote exactly the "
